@@ -148,6 +148,8 @@ def explore(ctx, scale=1.0):
                         continue        # the inline SYMBOL: checked on its own below (stored under `symbols`)
                     b = gen.Block(t)
                     child = gen.gen_block(rng, sh[1], depth=0, max_items=2)
+                    if sh[1] == "querymap":     # the recorded STYLE NORMAL ambiguity belongs to the cell enumeration (see the root clause)
+                        child.items = [it for it in child.items if not (it[0] == "attr" and it[1] == "style")]
                     b.items.append(("block", k, child, sh[0] == "objlist"))
                     text = gen.render(b)
                     r = steps(text, gen.expected(b), t, None, P, V)
